@@ -61,7 +61,7 @@ func foldModel(block []entry, env *envx.Env, prefer bool) (out []entry, errAt in
 
 var names = []string{"A", "B", "C", "D", "a", "b", "R1", "R2", "r1", "PATH", "UNSET"}
 
-type gstats struct{ fwd, chain, overlapPrefer, caseOnly, dynName bool }
+type gstats struct{ fwd, chain, overlapPrefer, caseOnly, dynName, tombstones bool }
 
 // template generates a name or value template over literals and references.
 func template(t *rapid.T, label string, earlier, later []string, st *gstats, isName bool) string {
@@ -111,6 +111,23 @@ func TestPropEnvBlock(t *testing.T) {
 		var block []entry
 		used := map[string]bool{}
 		chainLen := 0
+		// collision-heavy mode: many entries whose names expand (through runtime variables) to a few
+		// names that also occur literally, so renames keep displacing earlier and later entries
+		collisionMode := rapid.IntRange(0, 4).Draw(t, "collisionmode") == 0
+		collisionRuntime := map[string]string{}
+		if collisionMode {
+			pool := []string{"$X1", "$X2", "${X3}", "$X4", "$X5", "$Y", "A", "B", "C"}
+			pool = rapid.Permutation(pool).Draw(t, "cpool")
+			cn := rapid.IntRange(4, len(pool)).Draw(t, "cn")
+			for i := 0; i < cn; i++ {
+				block = append(block, entry{K: pool[i], V: fmt.Sprintf("v%d", i), uid: i})
+			}
+			for _, x := range []string{"X1", "X2", "X3", "X4", "X5", "Y"} {
+				collisionRuntime[x] = rapid.SampledFrom([]string{"A", "A", "B", "C"}).Draw(t, "xto")
+			}
+			n = 0
+			st.dynName = true
+		}
 		for i := 0; i < n; i++ {
 			k := planned[i]
 			if rapid.IntRange(0, 5).Draw(t, "dyn") == 0 {
@@ -137,6 +154,9 @@ func TestPropEnvBlock(t *testing.T) {
 				runtime[k] = "rt-" + k + rapid.SampledFrom([]string{"", "$$X", " v"}).Draw(t, "rv")
 			}
 		}
+		for k, v := range collisionRuntime {
+			runtime[k] = v
+		}
 		if envKind == 3 {
 			runtime = map[string]string{}
 		}
@@ -161,10 +181,23 @@ func TestPropEnvBlock(t *testing.T) {
 
 		// the pipeline
 		p := &pipeline.Pipeline{}
-		if n > 0 || rapid.Bool().Draw(t, "envnonnil") {
+		if len(block) > 0 || rapid.Bool().Draw(t, "envnonnil") {
 			p.Env = ordered.NewMap[string, string](len(block))
-			for _, e := range block {
+			// the block may carry deleted slots (entries removed before interpolation)
+			var dummies []string
+			for i, e := range block {
+				if rapid.IntRange(0, 3).Draw(t, "tombstone") == 0 {
+					d := fmt.Sprintf("\x00removed-%d", i)
+					p.Env.Set(d, "$A")
+					dummies = append(dummies, d)
+				}
 				p.Env.Set(e.K, e.V)
+			}
+			for _, d := range dummies {
+				p.Env.Delete(d)
+			}
+			if len(dummies) > 0 {
+				st.tombstones = true
 			}
 		}
 		stepStrs := []string{}
@@ -289,6 +322,12 @@ func TestPropEnvBlock(t *testing.T) {
 		}
 		if chainLen >= 3 {
 			cls = append(cls, "chain>=3")
+		}
+		if st.tombstones {
+			cls = append(cls, "block-with-deleted-slots")
+		}
+		if collisionMode {
+			cls = append(cls, "collision-heavy")
 		}
 		if len(wantBlock) < len(block) && wantErr == nil {
 			cls = append(cls, "rename-collision")
